@@ -4,6 +4,9 @@
    OK <canonical state key>   |   VIOL <signature> <detail>   |   CRASH <status>
    Each history runs in its own forked child (fresh process-global state, ASan). */
 #define _GNU_SOURCE
+#ifndef ASSET_DIR
+#define ASSET_DIR "/verif/fixtures/assets"
+#endif
 #include "token.c"
 #include <string.h>
 #include <stdint.h>
@@ -14,7 +17,7 @@
 #include "object_pool.h"
 #include "mmd.h"
 
-/* ops: i init, s convert small, k convert a kitchen sink (headings, definitions, table, notes), b convert big (two slabs), f fill the current slab exactly, h parse-and-hold a tree,
+/* ops: i init, e convert a document with images and a style sheet to EPUB (assets are stored), s convert small, k convert a kitchen sink (headings, definitions, table, notes), b convert big (two slabs), f fill the current slab exactly, h parse-and-hold a tree,
         c inspect (checksum) the held tree, m metadata queries on the held (already parsed) engine, d drain, x free */
 static char *big, *bigmeta; static char *ref_small, *ref_big, *ref_sink;
 /* a document that exercises the token-releasing paths of a conversion (automatic heading ids, definitions that are extracted, table assembly, notes) */
@@ -29,6 +32,7 @@ static int run(const char *h, char *out, size_t cap) {
 			case 's': { char *r = mmd_string_convert("a *b* c\n", 0x2218, 0, 0); if (!r || strcmp(r, ref_small)) { snprintf(out, cap, "VIOL pool:output-differs small conversion at step %d differs from fresh single use", i); return 1; } free(r); } break;
 			case 'b': { char *r = mmd_string_convert(big, 0x2218, 0, 0); if (!r || strcmp(r, ref_big)) { snprintf(out, cap, "VIOL pool:output-differs two-slab conversion at step %d differs from fresh single use", i); return 1; } free(r); } break;
 			case 'k': { char *r = mmd_string_convert(SINK, 0x2218, 0, 0); if (!r || strcmp(r, ref_sink)) { snprintf(out, cap, "VIOL pool:output-differs kitchen-sink conversion at step %d differs from fresh single use", i); free(r); return 1; } free(r); } break;
+			case 'e': { DString *r = mmd_string_convert_to_data("Title: T\nCSS: tiny.css\n\n# H\n\ntext ![a](i.png) and ![b](t3.png \"t\")\n", 0x2218, FORMAT_EPUB, 0, ASSET_DIR); if (!r || r->currentStringLength < 100 || memcmp(r->str, "PK", 2)) { snprintf(out, cap, "VIOL pool:output-differs packaged (EPUB with stored assets) conversion at step %d returned no archive", i); return 1; } d_string_free(r, true); } break;
 			case 'f': { while (token_pool->next != token_pool->last) token_new(0, 0, 0); } break;
 			case 'h': if (!held) { held = mmd_engine_create_with_string(bigmeta, 0x2218); mmd_engine_parse_string(held); heldsum = walk(mmd_engine_root(held)); heldid = i + 1; } break;
 			case 'm': if (held) { size_t end = 0; bool has = mmd_engine_has_metadata(held, &end); char *ks = mmd_engine_metadata_keys(held); if (!has || !ks || strcmp(ks, "title\n")) { snprintf(out, cap, "VIOL pool:metadata-query-result metadata query on the held engine returned has=%d keys=%s at step %d", (int)has, ks ? ks : "NULL", i); free(ks); return 1; } free(ks); } break;
